@@ -195,6 +195,27 @@ def program_shard(args):
                     break
                 agg.count("rewrite:" + kind)
                 agg.nontrivial.add(common.h64(t3))
+            # (2c) observing the finished value again through another path re-evaluates nothing: same value, same label
+            #      multiset (every thunk instance still at most once)
+            if r.cls == "value":
+                P = ("var", "rw_p")
+                obs = rng.choice([
+                    ("twice", ("index", ("arr", [P, P]), num(1))),
+                    ("equals_then", ("if", ("bin", "==", P, P), P, num(0))),
+                    ("toString_then", ("if", ("bin", ">=", call(std("length"), call(std("toString"), P)), num(0)), P, num(0))),
+                    ("manifest_then", ("if", ("bin", ">=", call(std("length"), call(std("manifestJsonEx"), P, s(" "))), num(0)), P, num(0))),
+                    ("type_then", ("if", ("bin", "!=", call(std("type"), P), s("x")), P, num(0))),
+                ])
+                t4, _ = genast.render(("local", [("bind", "rw_p", None, tree)], obs[1]), "min")
+                r4 = ev.run(t4, walk=1, stack=2000)
+                if r4.cls not in ("inconclusive",) and not (r4.cls == "error" and r4.kind == "StackOverflow"):
+                    if not same_outcome(base_out, outcome(r4)) or collections.Counter(r4.trace) != collections.Counter(base_trace):
+                        agg.violation({"kind": "observing_again_changes_outcome", "observation": obs[0],
+                                       "what": "trace" if same_outcome(base_out, outcome(r4)) else "outcome"},
+                                      dict(desc, rewritten=t4.decode("utf-8", "replace")[:1500], before=r.brief(), after=r4.brief(),
+                                           trace_before=sorted(base_trace)[:20], trace_after=sorted(r4.trace)[:20]), {"script": r4.lines})
+                        continue
+                    agg.count("observe_again:" + obs[0])
             if i < 1:
                 agg.sample({"program": text.decode("utf-8", "replace")[:300], "trace": base_trace[:10], "labels": nlabels})
     finally:
